@@ -33,6 +33,9 @@ CASE_T = {'hist': 'bool * list (gen * N * hop) * list outcome * list (key * opti
 FN = {'hist': 'check_hist', 'pre': 'check_pre', 'span': 'check_span'}
 
 
+MAXROWS = True
+
+
 def run(ck):
     quick = ck.tier == 'quick'
     ck.rule = ('call sequences of 12-40 calls over 6 nested keys (put Overwrite/Create/Update with current, stale, foreign, '
@@ -90,6 +93,10 @@ def run(ck):
                             seen.add(key)
                             uniq.append(r)
                     sel = uniq
+                maxrows = 1500 if quick else 8000
+                if len(sel) > maxrows:      # evenly spaced sample; the harness's direct oracle covers every case
+                    step = len(sel) / float(maxrows)
+                    sel = [sel[int(i * step)] for i in range(maxrows)]
                 cases = [r['case'] for r in sel]
                 res = ck.eval_cases(IMPORTS, CASE_T[chk], FN[chk], cases, label='c07_' + chk, shard=20 if chk == 'hist' else 150, timeout=1500)
                 ck.count(len(cases))
